@@ -59,6 +59,9 @@ KNOWN = [
      "a version tag that is an annotated tag of another annotated tag (`git tag -a -m inner inner HEAD; git tag -a -m outer v3.0.0 inner`) is not found: "
      "`git tag --points-at <commit>` peels one level only, `git describe --tags` finds it; zerv answers exactly as if the tag did not exist "
      "(no small patch: tag discovery would have to change to a fully peeling listing such as `git show-ref --tags -d`)"),
+    ("C04", "flow-distance-above-u32-overflow",
+     "zerv flow --source stdin on an object whose distance exceeds 2^32-1 fails in commit post-mode: 'Failed to parse NNN: number too large to fit in target type' "
+     "(tag post-mode works) - the post bump is passed through the same u32 bump argument as the length-10 branch hash"),
     ("C04", "flow-hash-len10-overflow",
      "zerv flow --hash-branch-len 10 fails for every branch whose 10-digit hash exceeds 2^32-1 (e.g. branches a, d, dev, master): "
      "'Failed to parse NNNNNNNNNN: number too large to fit in target type' - the documented length 10 does not work for ~57% of branch names"),
